@@ -28,6 +28,8 @@ MUTANTS = [
      "        self.structure = tuple(list(self.structure) + list(other.structure))\n        return self", "__add__ mutates its operand"),
     ("C02", "fire", C, "return getattr(self.element, 'mass') - constants.electron_mass*self.charge", "return getattr(self.element, 'mass') - constants.electron_mass*abs(self.charge)", "anion mass"),
     ("C02", "silent", F, "            mass += el.mass*count", "            mass += count*el.mass", "commuted product"),
+    ("C02", "fire", "periodictable/constants.py", "electron_mass = 5.4857990946e-4", "electron_mass = 5.48577990946e-4", "slipped digit in the electron mass (reverse of the fix)"),
+    ("C02", "silent", "periodictable/constants.py", "electron_mass = 5.4857990946e-4", "electron_mass = 5.48579909065e-4", "CODATA 2018 value"),
     # ---- C03
     ("C03", "fire", N, "    sld = 10*number_density * b_c # 1e-6/A^2", "    sld = 100*number_density * b_c # 1e-6/A^2", "wrong factor"),
     ("C03", "silent", N, "    sld = 10*number_density * b_c # 1e-6/A^2", "    sld = number_density * b_c * 10 # 1e-6/A^2", "commuted"),
@@ -35,6 +37,8 @@ MUTANTS = [
     ("C03", "silent", N, "        b_c = np.interp(wavelength, self.nsf_table[0], self.nsf_table[1])", "        xp_, fp_ = self.nsf_table\n        b_c = np.interp(wavelength, xp_, fp_)", "unpacked table"),
     ("C03", "fire", N, "atom.neutron.nsf_table = wavelength[::-1], xs[::-1]", "atom.neutron.nsf_table = wavelength[::-1], xs", "one array not reversed"),
     ("C03", "fire", N, "        if not element.neutron.has_sld():\n            return None, None, None\n        molar_mass", "        molar_mass", "missing-data guard dropped"),
+    ("C03", "fire", "periodictable/constants.py", "avogadro_number = 6.02214179e23", "avogadro_number = 6.02214179e22", "exponent of Avogadro's number"),
+    ("C03", "silent", "periodictable/constants.py", "avogadro_number = 6.02214179e23", "avogadro_number = 6.02214076e23", "SI 2019 exact value"),
     # ---- C04
     ("C04", "fire", N, "    sigma_i = np.maximum(sigma_s - sigma_c, 0.)  # 1 barn = 1 barn", "    sigma_i = sigma_s - sigma_c", "clip removed"),
     ("C04", "fire", N, "    b_c /= num_atoms\n    sigma_s /= num_atoms", "    b_c /= num_atoms\n    sigma_s /= len(compound.atoms)", "incoherent term normalised by the number of species"),
@@ -47,6 +51,7 @@ MUTANTS = [
     ("C05", "silent", X, "xsf[0] *= 0.001  # Use keV in table rather than eV", "xsf[0] /= 1000", "same factor"),
     ("C20", "fire", CM, "            b = list(map(float, w1[6:11]))\n            c = float(w1[5])", "            b = list(map(float, w1[5:10]))\n            c = float(w1[10])", "c and b columns shifted"),
     ("C05", "fire", X, "    return 1 - wavelength**2/(2*pi)*(f1 + f2*1j)*1e-6", "    return 1 - wavelength**2/(2*pi)*(f1 - f2*1j)*1e-6", "sign of the absorption term"),
+    ("C05", "fire", "periodictable/constants.py", "electron_radius = 2.8179402894e-15", "electron_radius = 2.8197402894e-15", "transposed digits in r_e"),
     # ---- C06
     ("C06", "fire", M, "        isotope, m, p, avg = line.split(',')", "        isotope, m, avg, p = line.split(',')", "columns swapped"),
     ("C06", "silent", M, "        isotope, m, p, avg = line.split(',')", "        isotope, m, pct, avg = line.split(',')", "local renamed"),
